@@ -28,20 +28,68 @@ import tempfile
 from .. import core, par
 
 MANIFEST = dict(
-    text="Proof: Lean theorems concat_spec (first position, last content, every ID once), filter_spec (exactly the rows whose value `is True`, in order), sort_spec / sort_desc_spec (permutation, ordered, stable — ties in input order also for descending), result_nodup / ids_once, sources_untouched / chain_untouched / registered_persists (induction over chains of any length), registered_spec, to_dict_spec over a hand model of ContentIndexParser's data-sheet operations for all sheets and all chains (unbounded); tied to the code by random chains of 1-6 operations over fresh and derived sheets (duplicate IDs, heavy ties, int and str keys, several filter columns) observed after every step through the real ContentIndexParser, data_sheets_to_dict, converters.save_data_sheets on real CSV workbooks, and bulk flow instantiation.",
+    text="Proof: Lean theorems concat_spec (first position, last content, every ID once), filter_spec (exactly the rows whose value `is True`, in order), sort_spec / sort_desc_spec (permutation, ordered, stable — ties in input order also for descending), result_nodup / ids_once, sources_untouched / chain_untouched / registered_persists (induction over chains of any length), registered_spec, to_dict_spec over a hand model of ContentIndexParser's data-sheet operations for all sheets and all chains (unbounded); tied to the code by random chains of 1-6 operations over fresh and derived sheets (duplicate IDs, heavy ties, int and str keys, several filter columns; a quarter of the cases over data models whose columns are named like Python built-ins — min, max, id, len, sum, filter, type, round, range, format, list, set, str, int — read by the expressions next to built-in functions that are called) observed after every step through the real ContentIndexParser, data_sheets_to_dict, converters.save_data_sheets on real CSV workbooks, and bulk flow instantiation.",
     ref="§5 C11",
-    note="Trusts: Lean kernel (axioms audited each run), the differential harness and Driver JSON codec, CPython eval/sorted/OrderedDict as modelled (exercised by the tie on every case). Python's expression language is outside the model: the harness evaluates each row's expression and ships the value. One explicit data model (concat of two *inferred* models is rejected by the code: outside the statement). Mixed int/str sort keys (TypeError) not generated.",
+    note="Trusts: Lean kernel (axioms audited each run), the differential harness and Driver JSON codec, CPython eval/sorted/OrderedDict as modelled (exercised by the tie on every case). Python's expression language is outside the model: the harness evaluates each row's expression and ships the value. One explicit data model per case, out of four classes (concat of two *inferred* models is rejected by the code: outside the statement). Expressions that CALL a name which is also a column of the row (TypeError: the field shadows the built-in) are not generated. Mixed int/str sort keys (TypeError) not generated.",
     technique="Lean 4 proof (induction over rows and over operation chains; core mergeSort stability) + differential model/code correspondence on generated operation chains",
 )
 
 MODEL_SRC = '''from rpft.parsers.creation.datarowmodel import DataRowModel
 
+_I = int
+_S = str
+
 
 class GenRow(DataRowModel):
-    a: int = 0
-    s: str = ""
-    t: str = ""
+    a: _I = 0
+    s: _S = ""
+    t: _S = ""
+
+
+# column names that coincide with Python built-ins (age bands with `min`/`max`, an `id`, a `type`, …):
+# in a filter / sort expression the name means the row's field
+class GenRowMM(DataRowModel):
+    a: _I = 0
+    s: _S = ""
+    t: _S = ""
+    min: _I = 0
+    max: _I = 0
+    id: _S = ""
+
+
+class GenRowLS(DataRowModel):
+    a: _I = 0
+    s: _S = ""
+    t: _S = ""
+    len: _I = 0
+    sum: _I = 0
+    filter: _S = ""
+    type: _S = ""
+
+
+class GenRowFR(DataRowModel):
+    a: _I = 0
+    s: _S = ""
+    t: _S = ""
+    round: _I = 0
+    range: _I = 0
+    abs: _I = 0
+    format: _S = ""
+    list: _S = ""
+    set: _S = ""
+    str: _S = ""
+    int: _I = 0
 '''
+
+# model class → its value columns (after ID) with their types; rows of a case are [ID, *values] in this order
+MODELS = {
+    "GenRow": [("a", int), ("s", str), ("t", str)],
+    "GenRowMM": [("a", int), ("s", str), ("t", str), ("min", int), ("max", int), ("id", str)],
+    "GenRowLS": [("a", int), ("s", str), ("t", str), ("len", int), ("sum", int), ("filter", str), ("type", str)],
+    "GenRowFR": [("a", int), ("s", str), ("t", str), ("round", int), ("range", int), ("abs", int), ("format", str),
+                 ("list", str), ("set", str), ("str", str), ("int", int)],
+}
+BUILTIN_MODELS = [m for m in MODELS if m != "GenRow"]
 
 FILTER_EXPRS = [
     "a > 1", "a == 1", "a >= 1 and s < 'y'", "s == 'x'", "s != t", "s in ['x','z']",
@@ -59,6 +107,68 @@ SORT_EXPRS = [
 ORDERS = ["", "", "ascending", "descending", "descending", "Descending", "DESCENDING", "desc"]
 BAD_FILTER = ["nope > 1", "a >"]
 BAD_SORT = ["nope", "a +"]
+
+# expressions over columns named like built-ins; which model a given expression fits is decided by
+# `fits` (names read ⊆ the model's columns, names called ∩ the model's columns = ∅)
+BUILTIN_FILTER_EXPRS = [
+    "min == 0", "max < 2", "min <= a <= max", "max - min > 1", "min < max", "id != 'x'", "id == s",
+    "id.lower() == 'x' and min < 2", "len(s + id) == 2", "abs(min - max) == 1", "bool(max)", "ID < 'r5' and max >= 1",
+    "len > 1", "len == a", "sum % 2 == 0", "filter == 'x'", "type in ['x','z']", "type != filter",
+    "max(a, len) > 1", "min(sum, len) == 0", "sum >= 1 and type < 'y'", "str(len) == '1'", "not sum",
+    "round >= 1", "range > a", "format == 'x'", "list != set", "str == 'x'", "int == 1", "abs == 2 or format == 'y'",
+    "len(list + set) == 2", "max(round, range) > 1", "int % 2 == 0 or str == 'y'", "bool(range)",
+    # not the object True
+    "min", "id", "len", "type", "round", "format", "max or 1", "[sum]",
+]
+BUILTIN_SORT_EXPRS = [
+    "min", "-max", "max - min", "id", "id + s", "len(id)", "max * max - 2 * max", "abs(min - 1)", "min > 1", "id.lower()",
+    "len", "-sum", "sum % 2", "filter", "type + ID[:1]", "filter + type", "min(len, a)", "max(a, sum)", "len * 0",
+    "round", "-range", "range - round", "format", "str + list", "int", "set.lower()", "abs", "len(format)", "min(round, 1)",
+]
+
+
+@functools.lru_cache(maxsize=None)
+def expr_names(expr: str):
+    """(names read as values, names called) of an expression; None if it does not parse"""
+    import ast
+
+    try:
+        tree = ast.parse(expr, mode="eval")
+    except SyntaxError:
+        return None
+    called = {n.func.id for n in ast.walk(tree) if isinstance(n, ast.Call) and isinstance(n.func, ast.Name)}
+    callee_nodes = {id(n.func) for n in ast.walk(tree) if isinstance(n, ast.Call)}
+    read = {n.id for n in ast.walk(tree) if isinstance(n, ast.Name) and id(n) not in callee_nodes}
+    return frozenset(read), frozenset(called)
+
+
+def fits(expr: str, model: str) -> bool:
+    """every name the expression reads is a column of `model`, every name it calls is not (so it is the built-in)"""
+    cols = {"ID"} | {c for c, _ in MODELS[model]}
+    read, called = expr_names(expr)
+    return read <= cols and not (called & cols)
+
+
+def builtin_named(model: str) -> frozenset:
+    import builtins
+
+    return frozenset(c for c, _ in MODELS[model] if hasattr(builtins, c))
+
+
+@functools.lru_cache(maxsize=None)
+def expr_pool(kind: str, model: str):
+    """(expressions reading a built-in-named column, the others) that fit the model"""
+    pool = (FILTER_EXPRS + BUILTIN_FILTER_EXPRS) if kind == "filter" else (SORT_EXPRS + BUILTIN_SORT_EXPRS)
+    ok = [e for e in pool if fits(e, model)]
+    bn = builtin_named(model)
+    return [e for e in ok if expr_names(e)[0] & bn], [e for e in ok if not expr_names(e)[0] & bn]
+
+
+def pick_expr(rng, kind: str, model: str) -> str:
+    special, plain = expr_pool(kind, model)
+    if special and rng.random() < 0.65:
+        return rng.choice(special)
+    return rng.choice(plain)
 
 IDS = [f"r{i}" for i in range(10)]
 S_SMALL = ["x", "y", "z"]
@@ -79,6 +189,8 @@ _MOD = {"name": None, "dir": None}
 
 def gen_case(rng: random.Random, malformed: bool = False) -> dict:
     wide = rng.random() < 0.3
+    # one data model per case; a quarter of the cases have columns named like Python built-ins
+    model = rng.choice(BUILTIN_MODELS) if rng.random() < 0.25 else "GenRow"
     nf = rng.randint(1, 4)
     idpool = IDS[: rng.choice([3, 5, 8, 10])]
     fresh = {}
@@ -93,11 +205,9 @@ def gen_case(rng: random.Random, malformed: bool = False) -> dict:
                 ids.append(rng.choice([x for x in idpool if x not in ids]))
         rows = []
         for rid in ids:
-            rows.append([
-                rid,
-                rng.choice(A_WIDE if wide else A_SMALL),
-                rng.choice(S_WIDE if wide else S_SMALL),
-                rng.choice(S_WIDE if wide else S_SMALL),
+            rows.append([rid] + [
+                rng.choice(A_WIDE if wide else A_SMALL) if ty is int else rng.choice(S_WIDE if wide else S_SMALL)
+                for _, ty in MODELS[model]
             ])
         fresh[f"F{i}"] = rows
     nops = rng.randint(1, 6)
@@ -126,15 +236,17 @@ def gen_case(rng: random.Random, malformed: bool = False) -> dict:
             derived += 1
         op = {"type": ty, "sources": sources, "new_name": new_name, "expr": "", "order": ""}
         if ty == "filter":
-            op["expr"] = rng.choice(FILTER_EXPRS)
+            op["expr"] = pick_expr(rng, "filter", model)
         if ty == "sort":
-            op["expr"] = rng.choice(SORT_EXPRS)
+            op["expr"] = pick_expr(rng, "sort", model)
             op["order"] = rng.choice(ORDERS)
         ops.append(op)
         tgt = new_name or sources[0]
         if tgt not in registered:
             registered.append(tgt)
     case = {"fresh": fresh, "ops": ops, "flow": rng.random() < 0.25}
+    if model != "GenRow":
+        case["model"] = model
     if malformed:
         k = rng.randrange(len(ops))
         op = ops[k]
@@ -165,12 +277,20 @@ def gen_case(rng: random.Random, malformed: bool = False) -> dict:
 # ------------------------------------------------------------------ independent reading
 
 
-def content(row) -> tuple:
-    return (row["ID"], row["a"], row["s"], row["t"])
+def model_of(case) -> str:
+    return case.get("model", "GenRow")
 
 
-def ref_fresh(rows) -> list[dict]:
-    return ref_concat([[{"ID": r[0], "a": r[1], "s": r[2], "t": r[3]} for r in rows]])
+def columns(case) -> list[str]:
+    return ["ID"] + [c for c, _ in MODELS[model_of(case)]]
+
+
+def content(row, cols=("ID", "a", "s", "t")) -> tuple:
+    return tuple(row[c] for c in cols)
+
+
+def ref_fresh(rows, cols=("ID", "a", "s", "t")) -> list[dict]:
+    return ref_concat([[dict(zip(cols, r)) for r in rows]])
 
 
 def ref_concat(sheets) -> list[dict]:
@@ -256,7 +376,7 @@ def _reader(name, sheets: dict):
 def index_rows(case, k, with_flow=False):
     rows = []
     for op in case["ops"][:k]:
-        rows.append(["data_sheet", ";".join(op["sources"]), op["new_name"], "GenRow", "", op["type"], op["expr"], op["order"]])
+        rows.append(["data_sheet", ";".join(op["sources"]), op["new_name"], model_of(case), "", op["type"], op["expr"], op["order"]])
     if with_flow:
         rows.append(["template_definition", "tpl", "", "", "", "", "", ""])
         rows.append(["create_flow", "tpl", "", "", with_flow, "", "", ""])
@@ -266,7 +386,7 @@ def index_rows(case, k, with_flow=False):
 def workbook(case, k, with_flow=False) -> dict:
     sheets = {"content_index": (INDEX_HEADERS, index_rows(case, k, with_flow))}
     for n, rows in case["fresh"].items():
-        sheets[n] = (DATA_HEADERS, rows)
+        sheets[n] = (columns(case), rows)
     if with_flow:
         sheets["tpl"] = (TPL_HEADERS, [TPL_ROW])
     return sheets
@@ -350,12 +470,13 @@ def save_via_files(case, tmp) -> dict:
 def model_request(case):
     table: dict[tuple, int] = {}
     rows_by_pid = []
+    cols = columns(case)
 
     def pid(r):
-        c = (r[0], r[1], r[2], r[3])
+        c = tuple(r)
         if c not in table:
             table[c] = len(table)
-            rows_by_pid.append({"ID": r[0], "a": r[1], "s": r[2], "t": r[3]})
+            rows_by_pid.append(dict(zip(cols, r)))
         return table[c]
 
     fresh = [[n, [[r[0], pid(r)] for r in rows]] for n, rows in case["fresh"].items()]
@@ -370,14 +491,14 @@ def model_request(case):
     return {"op": "dataops.run", "fresh": fresh, "ops": ops}, table
 
 
-def canon_real(obs, table):
+def canon_real(obs, table, cols=("ID", "a", "s", "t")):
     """real observation → the shape the model answers with"""
     if obs["exc"]:
         return {"err": obs["exc"]}
-    data = [[n, [[d["ID"], table.get(content(d), -1)] for d in rows]] for n, rows in obs["data"]]
+    data = [[n, [[d["ID"], table.get(content(d, cols), -1)] for d in rows]] for n, rows in obs["data"]]
     if obs["dict"] is None:
         return {"data": data, "crit": obs["crit"]}
-    dct = [[n, [table.get(content(d), -1) for d in sh["rows"]]] for n, sh in obs["dict"]["sheets"].items()]
+    dct = [[n, [table.get(content(d, cols), -1) for d in sh["rows"]]] for n, sh in obs["dict"]["sheets"].items()]
     return {"data": data, "crit": obs["crit"], "dict": dct}
 
 
@@ -397,7 +518,7 @@ def oracle_step(case, k, prev, cur) -> str | None:
         return "a sheet name is registered twice"
 
     def src(n):
-        return prevd[n] if n in prevd else ref_fresh(case["fresh"][n])
+        return prevd[n] if n in prevd else ref_fresh(case["fresh"][n], columns(case))
 
     ty = op["type"]
     if ty in ("", "concat"):
@@ -434,7 +555,7 @@ def oracle_step(case, k, prev, cur) -> str | None:
     if list(sh) != cn:
         return "data_sheets_to_dict does not list exactly the registered names"
     for n, rows in cur["data"]:
-        if sh[n]["rows"] != rows or sh[n]["model"] != "GenRow":
+        if sh[n]["rows"] != rows or sh[n]["model"] != model_of(case):
             return f"data_sheets_to_dict rows of {n!r} differ from the registered rows"
     return None
 
@@ -446,7 +567,7 @@ def classify(case):
     derived_names = set()
     for op in case["ops"]:
         def src(n):
-            return reg[n] if n in reg else ref_fresh(case["fresh"][n])
+            return reg[n] if n in reg else ref_fresh(case["fresh"][n], columns(case))
         srcs = [src(n) for n in op["sources"]]
         kinds = []
         for n in op["sources"]:
@@ -460,6 +581,12 @@ def classify(case):
             st.append("source." + kd)
         ty = op["type"]
         st.append("op." + (ty or "plain"))
+        if ty in ("filter", "sort"):
+            read, called = expr_names(op["expr"])
+            if read & builtin_named(model_of(case)):
+                st.append(ty + ".reads_builtin_named_column")
+                if called:
+                    st.append("expr.calls_a_builtin_and_reads_a_builtin_named_column")
         if ty in ("", "concat"):
             allids = [r["ID"] for s in srcs for r in s]
             if len(set(allids)) != len(allids):
@@ -497,6 +624,8 @@ def classify(case):
     if any(len(set(r[0] for r in rows)) < len(rows) for rows in case["fresh"].values()):
         st.append("fresh.duplicate_ids_within_sheet")
     st.append(f"chain_len.{len(case['ops'])}")
+    if builtin_named(model_of(case)):
+        st.append("columns.named_like_builtins")
     return st
 
 
@@ -509,7 +638,7 @@ def run_case(case, drv_answer, table, tmp, do_files) -> dict:
     for k in range(1, n + 1):
         cur = real_run(case, k)
         res["n"] += 1
-        real_c = canon_real(cur, table)
+        real_c = canon_real(cur, table, columns(case))
         mod = model_states[k - 1] if k - 1 < len(model_states) else {"err": "(model stopped earlier)"}
         if "dict" not in real_c and "err" not in real_c and isinstance(mod, dict):
             mod = {k2: v2 for k2, v2 in mod.items() if k2 != "dict"}
@@ -545,7 +674,7 @@ def run_case(case, drv_answer, table, tmp, do_files) -> dict:
             if do_files:
                 sv = save_via_files(case, tmp)
                 res["strata"].append("save_data_sheets_csv_files")
-                want = {"sheets": {nm: {"model": "GenRow", "rows": rows} for nm, rows in prev["data"]}}
+                want = {"sheets": {nm: {"model": model_of(case), "rows": rows} for nm, rows in prev["data"]}}
                 for which in ("returned", "on_disk"):
                     got = sv[which]
                     if list(got["sheets"]) != names or got["sheets"] != want["sheets"]:
@@ -581,7 +710,7 @@ def worker(args):
             out["nviol"] = out.get("nviol", 0) + len(r["viol"])
             for s in r["strata"]:
                 out["strata"][s] = out["strata"].get(s, 0) + 1
-            out["keys"].append(json.dumps([c["fresh"], c["ops"]], sort_keys=True))
+            out["keys"].append(json.dumps([c["fresh"], c["ops"], model_of(c)], sort_keys=True))
             if out["sample"] is None and len(c["ops"]) >= 3:
                 out["sample"] = c
     finally:
@@ -680,6 +809,24 @@ CORPUS = [
      "ops": [{"type": "sort", "sources": ["F0"], "new_name": "D0", "expr": "s", "order": "desc"},
              {"type": "concat", "sources": ["F1", "D0", "F1"], "new_name": "D1", "expr": "", "order": ""},
              {"type": "sort", "sources": ["F1"], "new_name": "D2", "expr": "nope", "order": ""}], "flow": False},
+    # columns named like Python built-ins (age bands: min / max, an id): in the expression they are the row's fields
+    {"model": "GenRowMM",
+     "fresh": {"F0": [["r0", 0, "x", "y", 0, 1, "i"], ["r1", 1, "y", "y", 2, 12, "c"], ["r2", 2, "z", "x", 13, 17, "t"],
+                      ["r3", 0, "x", "x", 18, 64, "a"], ["r4", 1, "z", "z", 65, 120, "s"], ["r5", 2, "y", "x", 0, 120, "any"]]},
+     "ops": [{"type": "", "sources": ["F0"], "new_name": "", "expr": "", "order": ""},
+             {"type": "filter", "sources": ["F0"], "new_name": "D0", "expr": "min == 0", "order": ""},
+             {"type": "filter", "sources": ["F0"], "new_name": "D1", "expr": "max < 18", "order": ""},
+             {"type": "sort", "sources": ["F0"], "new_name": "D2", "expr": "max", "order": "descending"},
+             {"type": "sort", "sources": ["D2"], "new_name": "D3", "expr": "min - max", "order": ""},
+             {"type": "filter", "sources": ["D3"], "new_name": "D4", "expr": "len(id) == 1 and abs(min - max) > 10", "order": ""}], "flow": True},
+    {"model": "GenRowLS",
+     "fresh": {"F0": [["r0", 0, "x", "y", 2, 1, "x", "y"], ["r1", 1, "y", "y", 0, 2, "y", "y"], ["r2", 2, "z", "x", 1, 0, "x", "z"]],
+               "F1": [["r2", 2, "z", "x", 2, 2, "z", "z"], ["r3", 0, "x", "x", 1, 1, "x", "x"]]},
+     "ops": [{"type": "concat", "sources": ["F0", "F1"], "new_name": "D0", "expr": "", "order": ""},
+             {"type": "sort", "sources": ["D0"], "new_name": "D1", "expr": "len", "order": "Descending"},
+             {"type": "filter", "sources": ["D1"], "new_name": "D2", "expr": "filter == 'x' and max(sum, len) > 1", "order": ""},
+             {"type": "sort", "sources": ["D0"], "new_name": "D3", "expr": "type + filter", "order": ""},
+             {"type": "filter", "sources": ["D0"], "new_name": "D4", "expr": "sum", "order": ""}], "flow": False},
 ]
 
 
@@ -689,13 +836,14 @@ def run(ck: core.Check):
         "a case = 1-4 reader sheets (0..12 rows, ids from a pool of 3-10 so sources share ids, values from 3 (70%) "
         "or 9-12 (30%) choices so sort keys tie) + a chain of 1-6 data_sheet rows (plain/implicit concat, concat, "
         "filter, sort asc/desc) whose sources are reader sheets or earlier results and whose target is a new name, "
-        "an earlier name (overwrite) or a reader sheet's name (shadow); every prefix of the chain is run through the "
+        "an earlier name (overwrite) or a reader sheet's name (shadow); 25% of the cases use a data model with extra columns "
+        "named like Python built-ins and expressions that read them (65% of their filter/sort rows); every prefix of the chain is run through the "
         "real parser; non-trivial = every generated case (each has ≥1 operation); distinct = distinct (sheets, chain)"
     )
     ck.assumptions = [
         "CPython eval / sorted(reverse=…) / OrderedDict.update behave as modelled (exercised by the tie on every case)",
         "row content is observed through pydantic .dict(); the expression value of a row is computed by the harness with the same eval call and shipped to the model",
-        "one explicit data model for all sheets; mixed int/str sort keys (TypeError) are not generated",
+        "one explicit data model for all sheets of a case; mixed int/str sort keys (TypeError) and calls of a name that is a column of the row (TypeError) are not generated",
     ]
     ck.partial_gap = []
     if not core.DRIVER_BIN.exists():
@@ -735,6 +883,8 @@ REQUIRED_STRATA = [
     "filter.truthy_non_True_dropped", "filter.proper_subset", "target.overwrites_registered",
     "target.shadows_reader_sheet", "fresh.duplicate_ids_within_sheet", "result.empty", "bulk_flows",
     "save_data_sheets_csv_files", "chain_len.1", "chain_len.6",
+    "columns.named_like_builtins", "filter.reads_builtin_named_column", "sort.reads_builtin_named_column",
+    "expr.calls_a_builtin_and_reads_a_builtin_named_column",
 ]
 
 
@@ -846,7 +996,7 @@ def replay(path):
                     print("   exception:", obs.get("exc_text"))
                     break
                 for n, rows in obs["data"]:
-                    print("   ", n, [content(d) for d in rows])
+                    print("   ", n, [content(d, columns(case)) for d in rows])
             v = still_fails(case) if "malformed" not in case else None
             print("direct oracle:", v["what"] if v else "no failure")
             return 1 if v else 0
